@@ -828,9 +828,9 @@ def plan(tier, seed):
         rows = [("k2-%d" % i, 2, 80, 45, 0) for i in range(2)] + [("k1-%d" % i, 1, 200, 45, 0) for i in range(2)] + \
                [("mixed-%d" % i, None, 500, 45, 0) for i in range(6)] + [("k0-%d" % i, 0, 600, 35, 0) for i in range(2)]
     else:
-        rows = [("k3-%d" % i, 3, 40, 280, 8) for i in range(2)] + [("k2-%d" % i, 2, 800, 290, 6) for i in range(2)] + \
-               [("k1-%d" % i, 1, 3000, 290, 0) for i in range(2)] + [("mixed-%d" % i, None, 6000, 290, 3) for i in range(5)] + \
-               [("k0-0", 0, 8000, 200, 0)]
+        rows = [("k3-%d" % i, 3, 40, 250, 8) for i in range(2)] + [("k2-%d" % i, 2, 800, 250, 4) for i in range(2)] + \
+               [("k1-%d" % i, 1, 3000, 250, 0) for i in range(2)] + [("mixed-%d" % i, None, 6000, 250, 2) for i in range(5)] + \
+               [("k0-0", 0, 8000, 180, 0)]
     for i, (name, fk, n, budget, big) in enumerate(rows):
         specs.append({"name": name, "shard": i, "force_k": fk, "count": n, "budget": budget, "big": big,
                       "no_exotic": no_exotic,
@@ -857,9 +857,9 @@ def run_shard(spec):
     c0 = time.process_time()
     big_left = int(spec.get("big", 0))
     spent, units_done = 0.0, 0.0
-    budget = float(spec["budget"])     # CPU seconds of this process; wall is capped at 2.5x (shared machine)
+    budget = float(spec["budget"])     # CPU seconds of this process; wall is capped at 2x (shared machine)
     for i in range(int(spec["count"])):
-        if time.process_time() - c0 > budget or time.time() - t0 > 2.5 * budget:
+        if time.process_time() - c0 > budget or time.time() - t0 > 2.0 * budget:
             ctx.obs.add("a shard stopped by its time budget before its case count")
             break
         case = gen_case(rng, tier, allow_exotic=not spec.get("no_exotic"), force_k=spec.get("force_k"))
@@ -884,7 +884,7 @@ def run_shard(spec):
         # adaptive pacing: cost ~ dimension^1.5 x instructions x runs; skip what would overrun the budget at the
         # rate observed so far in this shard (the machine is shared; wall-clock only limits work, never decides)
         units = fock_dim(d, cutoff) ** 1.5 * (len(doc["ops"]) + 6) * (2 if f["k"] else 1)
-        remaining = min(budget - (time.process_time() - c0), 2.5 * budget - (time.time() - t0))
+        remaining = min(budget - (time.process_time() - c0), 2.0 * budget - (time.time() - t0))
         est = units * (spent / units_done) if units_done > 0 else 0.0
         if est > 5.0 and est > 1.5 * max(remaining, 1.0):
             ctx.c["cases_skipped_by_pacing"] += 1
